@@ -5,12 +5,14 @@ import Driver.Cond
 import Driver.Sym
 import Driver.TwoPass
 import Driver.Sim
+import Driver.SimX
 import Driver.Mem
 import Driver.FileIO
 import Driver.Det
 import Driver.Util
 import Driver.Listing
 import Driver.Macro
+import Driver.Link
 import Driver.Reader
 
 def dispatch (line : String) : String :=
@@ -30,7 +32,9 @@ def dispatch (line : String) : String :=
   | "blk" :: args => Driver.Cond.handleBlk args
   | "sym" :: args => Driver.Sym.handle args
   | "twopass" :: args => Driver.TwoPass.handle args
+  | "twopass430" :: args => Driver.TwoPass.handle430 args
   | "sim" :: args => Driver.Sim.handle args
+  | "simx" :: args => Driver.SimX.handle args
   | "simrun" :: args => Driver.Sim.handleRun args
   | "arch" :: args => Driver.Sim.handleArch args
   | "dislen" :: args => Driver.Sim.handleDisLen args
@@ -45,6 +49,7 @@ def dispatch (line : String) : String :=
   | "unum" :: args => Driver.Util.handleNum args
   | "lst" :: args => Driver.Listing.handle args
   | "mexp" :: args => Driver.Macro.handleMexp args
+  | "link" :: args => Driver.Link.handle args
   | "tk" :: args => Driver.Reader.handleTk args
   | "mp" :: args => Driver.Reader.handleMp args
   | "mx" :: args => Driver.Reader.handleMx args
